@@ -97,6 +97,25 @@ func scripts(thorough bool) []script {
 	for _, n := range []int{0, 1, 8, 9} {
 		ss = append(ss, script{Name: fmt.Sprintf("cookies=%d", n), ALPN: ok, Recs: baseRecs(n), Cut: -1})
 	}
+	// fixed-size records with another body length, and what may hide behind them:
+	// the record stream must be read by its length fields
+	bl := func(name string, rs []rec) { ss = append(ss, script{Name: name, ALPN: ok, Recs: rs, Cut: -1}) }
+	with := func(i int, r rec) []rec { o := append([]rec{}, base...); o[i] = r; return o }
+	bl("aead-empty", with(1, rec{rAEAD, true, nil}))
+	bl("aead-list-15-16", with(1, rec{rAEAD, true, []byte{0, 15, 0, 16}}))
+	bl("aead-list-16-15", with(1, rec{rAEAD, true, []byte{0, 16, 0, 15}}))
+	bl("aead-three-bytes", with(1, rec{rAEAD, true, []byte{0, 15, 0}}))
+	bl("nextproto-empty", with(0, rec{rNext, true, nil}))
+	bl("nextproto-list", with(0, rec{rNext, true, []byte{0, 0, 0, 1}}))
+	bl("port-empty", with(3, rec{rPort, false, nil}))
+	bl("port-four-bytes", with(3, rec{rPort, false, []byte{0x10, 0x1b, 0, 0}}))
+	// no algorithm selected and no cookie record at all, but an unknown optional
+	// record whose body looks like "algorithm 15" and a cookie when read out of step
+	bl("aead-empty-then-unknown-15", []rec{{rNext, true, u16(0)}, {rAEAD, true, nil}, {15, false, []byte{0x00, 0x03, 0xde, 0xad, 0x01}}, {rEOM, true, nil}})
+	// cookies no NTS request can carry
+	hugeRecs := []rec{{rNext, true, u16(0)}, {rAEAD, true, u16(15)}, {rCookie, false, make([]byte, 1000)}, {rCookie, false, make([]byte, 1000)}, {rEOM, true, nil}}
+	bl("cookies-1000-bytes", hugeRecs)
+	bl("cookies-1000-and-100-bytes", []rec{{rNext, true, u16(0)}, {rAEAD, true, u16(15)}, {rCookie, false, make([]byte, 1000)}, {rCookie, false, cookie(3)}, {rEOM, true, nil}})
 	// the same valid response however the transport segments it
 	for _, seg := range []int{-1, 1, 7, 64, 150} {
 		ss = append(ss, script{Name: fmt.Sprintf("valid-segmented=%d", seg), ALPN: ok, Recs: baseRecs(8), Cut: -1, Seg: seg})
@@ -241,7 +260,15 @@ type expectation struct {
 	cookies [][]byte
 	server  string
 	port    uint16
+	// lenient: the stream contains a malformed record the statement does not speak
+	// about; the exchange may be refused, but if it succeeds everything else holds
+	lenient  bool
+	unusable int
 }
+
+// maxUsableCookie: the longest cookie a request of nts.MaxPacketLen bytes can carry
+// next to the header, a 32-byte unique identifier and the authenticator.
+const maxUsableCookie = 1024 - 48 - 36 - 40 - 4
 
 // expect evaluates the statement's success condition on a script.
 func expect(sc script) expectation {
@@ -273,13 +300,37 @@ func expect(sc script) expectation {
 			e.ok = algo == 15 && len(e.cookies) >= 1
 			return e
 		case rNext:
+			if len(body) < 2 || len(body)%2 != 0 {
+				e.lenient = true
+			}
 		case rAEAD:
-			algo = int(binary.BigEndian.Uint16(body))
+			// the peer selects exactly one algorithm
+			algo = -2
+			if len(body) == 2 {
+				algo = int(binary.BigEndian.Uint16(body))
+			} else if len(body) > 2 && len(body)%2 == 0 {
+				// a list (what a client sends, not what a server should answer): taking
+				// AES-SIV-CMAC-256 from it or refusing the exchange are both acceptable
+				for i := 0; i+1 < len(body); i += 2 {
+					if binary.BigEndian.Uint16(body[i:]) == 15 {
+						algo, e.lenient = 15, true
+					}
+				}
+			}
 		case rCookie:
+			if len(body) > maxUsableCookie {
+				e.unusable++ // cannot be sent in any NTS request (the client must refuse to use it, not crash)
+			}
 			e.cookies = append(e.cookies, body)
 		case rServer:
 			e.server = string(body)
 		case rPort:
+			if len(body) != 2 {
+				e.lenient = true // malformed: refusing the exchange and reading the first two bytes are both acceptable
+				if len(body) < 2 {
+					break
+				}
+			}
 			e.port = binary.BigEndian.Uint16(body)
 		case rErr:
 			return expectation{}
@@ -431,6 +482,10 @@ func history(r *mc.Run, seqs [][]script) func(x *mc.X) {
 				if ps.conns != before+1 {
 					x.Failf("no-new-exchange-after-failure", "call %d (%s) with an empty pool opened %d connections (history %s)", i, sc.Name, ps.conns-before, names(hs[:i+1]))
 				}
+				if e.ok && e.lenient && err != nil {
+					x.Observe("refused-malformed")
+					continue
+				}
 				if e.ok != (err == nil) {
 					if err == nil {
 						x.Failf("bad-offer-accepted", "script %s: key exchange succeeded (algo=%d cookies=%d server=%q)", sc.Name, d.Algo, len(d.Cookie), d.Server)
@@ -565,6 +620,11 @@ func destination(r *mc.Run, sc script) func(x *mc.X) {
 			x.Transitions++
 			e := expect(sc)
 			sent := w.Net.SentSince(0)
+			if (!e.ok || (len(e.cookies) > 0 && len(e.cookies[0]) > maxUsableCookie)) && len(sent) == 0 {
+				x.Observe("exchange refused")
+				w.Advance(2e9)
+				return
+			}
 			if len(sent) != 1 {
 				x.Failf("no-nts-request", "client sent %d datagrams after key exchange %s", len(sent), sc.Name)
 			}
@@ -602,13 +662,13 @@ func TestCheck(t *testing.T) {
 		r.Explore(mc.Config{Name: "real-handler", Bound: -1, ShardN: 1}, realHandler(r))
 		// 4. destination of the following NTP request
 		for _, s := range ss {
-			if s.Name == "valid" || s.Name == "drop-server" || s.Name == "drop-port" || s.Name == "server=name" || s.Name == "port=123" {
+			if s.Name == "valid" || s.Name == "drop-server" || s.Name == "drop-port" || s.Name == "server=name" || s.Name == "port=123" || s.Name == "cookies-1000-bytes" || s.Name == "cookies-1000-and-100-bytes" || s.Name == "valid-large-cookies" {
 				if r.Mine() || r.Replaying() {
 					r.Explore(mc.Config{Name: "destination/" + s.Name, Bound: -1, ShardN: 1}, destination(r, s))
 				}
 			}
 		}
 		r.Extra["scripts"] = len(ss)
-		r.Extra["rule"] = "scripted TLS 1.3 peer: the valid record sequence and every single deviation (each record dropped, replaced, adjacent records swapped, warning/error(0,1,2,7)/unknown critical/unknown optional records inserted at every position, 0/1/8/9 cookies, the valid response handed to TLS in one write, one write per record, or writes of 1/7/64/150 bytes, 8 cookies of 700 bytes (more than the client's read buffer), truncation at every byte, ALPN none/other, connection closed before/after the handshake, connection kept open; thorough: every ordered pair of record-level deviations); histories of 2 and 3 FetchData calls over 15 distinct scripts; the project's own key-exchange handler as peer; destination of the following NTS request"
+		r.Extra["rule"] = "scripted TLS 1.3 peer: the valid record sequence and every single deviation (each record dropped, replaced, adjacent records swapped, warning/error(0,1,2,7)/unknown critical/unknown optional records inserted at every position, 0/1/8/9 cookies, fixed-size records with empty / list / odd bodies and records hidden behind them, cookies of 1000 bytes (too long for any request), the valid response handed to TLS in one write, one write per record, or writes of 1/7/64/150 bytes, 8 cookies of 700 bytes (more than the client's read buffer), truncation at every byte, ALPN none/other, connection closed before/after the handshake, connection kept open; thorough: every ordered pair of record-level deviations); histories of 2 and 3 FetchData calls over 15 distinct scripts; the project's own key-exchange handler as peer; destination of the following NTS request"
 	})
 }
